@@ -4,3 +4,39 @@ claim("C20",
   text="Decides from the source, on every run, the structural necessary conditions of the id62 contract: one width W shared by the renderer's comparisons, its zero-padding verb and the published pattern (whose alphabet is big.Int's base-62 alphabet); the renderer's only panic is unreachable because 256^N <= 62^W for the array length N and width W extracted from the code (big-integer arithmetic inside the analyser); render and parse use the same radix; parseBase62 copies right-aligned on every success path, rejects longer values, and its slice bound is in range; the pattern has a single source that nobody writes; NewHash's call tree is pure. Level 'other': these are proofs of the named clauses over all inputs, not of the render/parse bijection itself.",
   note="Not decided: the bijection over 2^128 values (arithmetic inside math/big is trusted: Text/SetString/SetBytes/Bytes semantics and fmt's %0Ns padding are stated library facts). Trusted base: go/types constant evaluation, the AST shape recognisers listed in the evidence.",
   technique="constant extraction + abstract interpretation of length relations over the AST; big-integer bound check; effect/purity walk")
+
+_PANIC = ("R-PANIC inventory over every hand-written function reachable (VTA call graph seeded with CHA) from the property's entry points: explicit panics, index/slice expressions whose bounds check the Go compiler's prove pass could not eliminate, type assertions without comma-ok, integer division by non-constants, and calls of APIs with panicking preconditions (reflect.Value accessors, protoreflect List/Map/Message.Set with a possibly-zero Value, big.Int radix, strings.Repeat, Must* helpers). Each obligation is discharged on every run by a dominating guard recomputed from the source, or by a single-key table line with a reason; a new or newly unguarded panic site is an open obligation.")
+_PANIC_NOTE = ("Not decided: nil-pointer dereferences in general (only the listed sub-rules), panics inside dependencies beyond the listed preconditions, stack depth and running time, and any value-level behaviour. Trusted: go/types, go/ssa, VTA call-graph soundness for this code (no reflection-driven calls, no unsafe), the compiler's prove pass (a bounds check it eliminates cannot fail), and the reasons in tables/panic_sites.json (each covers one construct and rests on an invariant stated there).")
+
+claim("C06",
+  text="Totality of JSON/query decoding, structural part: " + _PANIC + " Entry points JSONToProto, QueryToProto, DecodeAnyTo. The rules found and the fix: commits removed four reachable panics (\"!type\"-only oneof, empty query value list, null array/map elements, unsupported item schema).",
+  note=_PANIC_NOTE + " Termination (token progress of the decode recursion) is argued in DESIGN.md and not yet mechanised.",
+  technique="panic-site inventory over the VTA-reachable set + compiler prove pass + dominator-fact guard analysis + interprocedural Value-validity summaries")
+claim("C07",
+  text="Compiler totality and link-independence, structural part: (1) R-EXT/G1,G2 exact typing of every proto.SetExtension/GetExtension against the generated ExtensionInfo literals; (2) R-EXT/G3 a must-analysis over go/cfg with callee summaries and calling-context intersection proving that every SetExtension in j5convert is paired with ensureImport of the file declaring the extension on every non-error path (so a file containing only that construct links); (3) R-EXT/G4 field descriptors used on a protoreflect.Message originate from that message; (4) " + _PANIC + " Entry points j5parse.ParseFile, ConvertJ5File, SourceSummary, CompilePackage, LintFile, LintAll.",
+  note=_PANIC_NOTE + " Not decided: that every documented construct is accepted, error positions, protocompile's own totality.",
+  technique="type-resolved extension typing; CFG must-dataflow with interprocedural summaries (import pairing); descriptor provenance; panic-site inventory")
+claim("C11",
+  text="Parser totality, structural part: " + _PANIC + " Entry points parser.ParseFile, errpos.AddSource/AddSourceFile, ErrorsWithSource.HumanString/Error.",
+  note=_PANIC_NOTE + " Position well-formedness (start <= end, inside the file) and termination of the lexer/parser loops are not yet mechanised beyond the conditional table line on rangeLines.",
+  technique="panic-site inventory + compiler prove pass + dominator-fact guard analysis")
+claim("C19",
+  text="Editor edits computed without failure, structural part: " + _PANIC + " Entry points parser.FmtDiffs and the LSP formatter.",
+  note=_PANIC_NOTE + " Ordering/non-overlap of edits and equality with Fmt output are not decided.",
+  technique="panic-site inventory + compiler prove pass + dominator-fact guard analysis")
+claim("C09",
+  text="Formatter totality only (a necessary condition of 'emits parseable source'): " + _PANIC + " Entry points parser.Fmt, bcl.Fmt.",
+  note=_PANIC_NOTE + " Meaning preservation, idempotence and lexer/formatter escape agreement are not yet decided by this check.",
+  technique="panic-site inventory + compiler prove pass + dominator-fact guard analysis")
+claim("C18",
+  text="Schema reflection totality, structural part: " + _PANIC + " Entry points SchemaCache.Schema, SchemaSetFromFiles, Reflector.NewRoot/NewObject.",
+  note=_PANIC_NOTE + " Nil dereferences of partially built rule structs, recursion on flatten cycles and the self-consistency clauses are not yet mechanised.",
+  technique="panic-site inventory + compiler prove pass + dominator-fact guard analysis")
+claim("C05",
+  text="Printer totality only (printing must not crash before any round trip can hold): " + _PANIC + " Entry point protoprint.PrintFile.",
+  note=_PANIC_NOTE + " Attribute coverage of the printer and re-parse equivalence are not yet decided by this check.",
+  technique="panic-site inventory + compiler prove pass + dominator-fact guard analysis")
+claim("C16",
+  text="Toolchain consumption without crash, structural part: " + _PANIC + " Entry points structure.APIFromImage, j5client.APIFromSource, export.BuildSwagger, export.FromProto.",
+  note=_PANIC_NOTE + " Exhaustiveness of the per-field-kind switches, recursion guards and naming-convention agreement are not yet mechanised.",
+  technique="panic-site inventory + compiler prove pass + dominator-fact guard analysis")
